@@ -17,7 +17,7 @@ CORPUS = [
     ["participant P", "participant Q", "publisher keep P", "repeat 254 publisher b%i P ; delete b%i", "publisher q Q",
      "handle keep", "handle q", "publisher one_too_many P"],
     ["participant P", "topic t P A ki", "publisher pb P", "subscriber sb P", "writer w pb t history=keep_last:5 max_spi=2",
-     "writer w2 pb t", "reader r sb t history=keep_last:5 max_spi=2", "reader r2 sb t", "cft c P t F - value > 5", "topic t2 P B ni",
+     "writer w2 pb t", "reader r sb t history=keep_last:5 max_spi=2", "reader r2 sb t", "cft c P t F 10 value <= %0", "topic t2 P B ni",
      "handle w2", "handle r2", "handle t2"],
 ]
 
@@ -27,7 +27,7 @@ oracle = oracle_for("C35")
 
 def run(ctx):
     r = ctx.rng
-    n = 90 if ctx.tier == "quick" else 4000
+    n = 90 if ctx.tier == "quick" else 800
     cases = [Case(list(c)) for c in CORPUS]
     for _ in range(n):
         cases.append(gen_case(r, PROFILE))
